@@ -9,6 +9,8 @@
 (*  1 text  2 text with a symbol reference  3 marker + trailing blank      *)
 (*  4 blank + marker  5 looks like a phase header  6 looks like a comment  *)
 (*  7 empty  8 quote characters  9 marker as a prefix of a longer word     *)
+(*  10 blanks only  11 a tab only  (contents like any other line: kept     *)
+(*  character by character)                                                *)
 (***************************************************************************)
 EXTENDS Naturals, Sequences, TLC
 
